@@ -9,6 +9,7 @@ import (
 	"os"
 	"sort"
 	"strings"
+	"sync"
 	"time"
 
 	"verif/engine/smt"
@@ -90,6 +91,36 @@ type Path struct {
 
 // siteKey: unwinding is counted per instruction site and per function activation (a loop re-visits
 // the site inside one activation; a helper called many times does not).
+var debugSites = os.Getenv("VERIF_SITES") != ""
+
+// SiteCount (debug, $VERIF_SITES): fresh decisions per source position, accumulated over all paths.
+var (
+	siteCountMu sync.Mutex
+	SiteCount   = map[string]int{}
+)
+
+// DumpSites prints the decision sites by count.
+func DumpSites() {
+	if !debugSites {
+		return
+	}
+	type kv struct {
+		k string
+		n int
+	}
+	var l []kv
+	for k, n := range SiteCount {
+		l = append(l, kv{k, n})
+	}
+	sort.Slice(l, func(i, j int) bool { return l[i].n > l[j].n })
+	for i, e := range l {
+		if i >= 40 {
+			break
+		}
+		fmt.Fprintf(os.Stderr, "site %6d %s\n", e.n, e.k)
+	}
+}
+
 type siteKey struct {
 	site  ssa.Instruction
 	frame int
@@ -109,17 +140,17 @@ type frame struct {
 
 // Machine runs paths.
 type Machine struct {
-	P        *Program
-	Solver   smt.Checker
-	Unwind   int // max symbolic decisions per site per path
-	curUnwind int
-	MaxSteps int
-	MaxDepth int
+	P            *Program
+	Solver       smt.Checker
+	Unwind       int // max symbolic decisions per site per path
+	curUnwind    int
+	MaxSteps     int
+	MaxDepth     int
 	MaxDecisions int
-	GoInline bool
-	Verbose  bool
-	Thorough bool
-	Prefix   string
+	GoInline     bool
+	Verbose      bool
+	Thorough     bool
+	Prefix       string
 
 	// per path
 	pc        []*smt.Term
@@ -146,6 +177,10 @@ type Machine struct {
 	onceDone  map[string]bool
 	lockEdges map[[2]string]bool
 	spawned   int
+	owner     map[string]int // lock key -> logical goroutine that holds it
+	gors      []*lgor
+	cur       *lgor
+	yield     chan *lgor
 	overrides map[string]*FuncV
 	ghost     map[string]Value
 	stack     []string
@@ -186,6 +221,9 @@ func (m *Machine) reset(prefix []int) {
 	m.onceDone = map[string]bool{}
 	m.lockEdges = nil
 	m.spawned = 0
+	m.owner = map[string]int{}
+	m.gors = nil
+	m.cur = nil
 	m.overrides = map[string]*FuncV{}
 	m.ghost = map[string]Value{}
 	m.stack = nil
@@ -221,7 +259,9 @@ func (m *Machine) runOne(fn *ssa.Function, prefix []int) (res *Path) {
 	m.reset(prefix)
 	res = &Path{}
 	defer func() {
-		if r := recover(); r != nil {
+		r := recover()
+		m.abandonLogical()
+		if r != nil {
 			switch e := r.(type) {
 			case pathEnd:
 				res.Outcome, res.Msg = e.outcome, e.msg
@@ -308,6 +348,21 @@ func (m *Machine) decide(conds []*smt.Term, site ssa.Instruction) int {
 		m.end("unwind", fmt.Sprintf("more than %d decisions on one path", m.MaxDecisions))
 	}
 	pos := len(m.trace)
+	if debugSites && pos >= len(m.prefix) {
+		where := "intrinsic"
+		if site != nil {
+			where = m.P.Fset.Position(site.Pos()).String()
+			if iff, ok := site.(*ssa.If); ok {
+				where = m.P.Fset.Position(iff.Cond.Pos()).String()
+			}
+		}
+		if len(m.stack) > 0 {
+			where += " in " + m.stack[len(m.stack)-1]
+		}
+		siteCountMu.Lock()
+		SiteCount[where]++
+		siteCountMu.Unlock()
+	}
 	if pos < len(m.prefix) {
 		k := m.prefix[pos]
 		m.trace = append(m.trace, k)
@@ -1940,7 +1995,24 @@ func (m *Machine) lock(p *Ptr, write bool, name string) {
 	if p.Cell.Name != "" {
 		name = p.Cell.Name + name
 	}
-	if st, held := m.held[k]; held {
+	for {
+		st, held := m.held[k]
+		if !held {
+			break
+		}
+		if m.owner[k] != m.curGid() {
+			if !write && st >= 2 {
+				m.held[k] = st + 1 // shared read lock across goroutines
+				return
+			}
+			if m.cur == nil {
+				// the main goroutine waits for a lock held by a parked goroutine: nobody can release it
+				m.effect("deadlock", smt.StrC(k))
+				m.end("deadlock", "main goroutine waits for "+k+" ("+name+") held by a blocked goroutine")
+			}
+			m.park(k)
+			continue
+		}
 		if write || st == 1 {
 			m.effect("deadlock", smt.StrC(k))
 			m.end("deadlock", "goroutine re-acquires "+k+" ("+name+") which it already holds; held: "+strings.Join(m.heldOrder, ","))
@@ -1960,6 +2032,7 @@ func (m *Machine) lock(p *Ptr, write bool, name string) {
 	} else {
 		m.held[k] = 2
 	}
+	m.owner[k] = m.curGid()
 	m.heldOrder = append(m.heldOrder, k)
 }
 
@@ -1980,6 +2053,8 @@ func (m *Machine) unlock(p *Ptr, write bool) {
 			break
 		}
 	}
+	delete(m.owner, k)
+	m.wake(k)
 }
 
 // SortedHavoc lists havocked callees.
